@@ -78,10 +78,17 @@ func (c13) Gen(r *rand.Rand, tier string, run int) *core.Case {
 		c.Params["sibling"] = 1
 		c.Params["sibling_after"] = r.IntN(80)
 	}
-	if r.IntN(5) == 0 {
+	switch r.IntN(10) {
+	case 0, 1:
 		// the first subscriber subscribes through a proxy bound to a context
 		// and gives that context up just before it cancels its subscription
 		c.Params["ctx_subs"] = 1
+	case 2, 3:
+		// ... or gives it up while the subscription is being made: whether
+		// the subscription stands or not, nothing of it may be left behind
+		// for the subscribers that follow
+		c.Params["ctx_subs"] = 2
+		c.Params["ctx_giveup_delay"] = r.IntN(90)
 	}
 	if r.IntN(4) == 0 {
 		// a second service of the same kind on the same server, watched
@@ -660,6 +667,18 @@ func (as *c13actor) do(c *core.Case, env *core.Env, st *c13state, op core.Op, cl
 			as.ctxCancel = cancelCtx
 			env.Probe("subscriptions-through-a-proxy-bound-to-a-context")
 		}
+		if c.P("ctx_subs", 0) == 2 && a == 0 {
+			ctx, cancelCtx := context.WithCancel(context.Background())
+			p = p.WithContext(ctx)
+			delay := c.P("ctx_giveup_delay", 0)
+			go func() {
+				for j := 0; j < delay; j++ {
+					zzsim.Yield("h.ctx-giveup")
+				}
+				cancelCtx()
+			}()
+			env.Probe("contexts-given-up-while-the-subscription-is-made")
+		}
 		h := env.Invoke(a, "subscribe", fmt.Sprintf("sig%d conn%d", rec.sig, conn))
 		var ch chan int32
 		var err error
@@ -954,6 +973,11 @@ func (c13) Check(c *core.Case, env *core.Env, res zzsim.Result, v *core.Verdict)
 		if s.err != nil {
 			if s.sub == 40 && strings.Contains(s.err.Error(), "consumer blocked") {
 				// refused on a crowded connection, and said so: owed nothing
+				continue
+			}
+			if c.P("ctx_subs", 0) == 2 && s.sub == 0 && strings.Contains(s.err.Error(), "ancel") {
+				// given up by its own context while it was being made
+				env.Probe("subscriptions-given-up-while-they-were-made")
 				continue
 			}
 			bad("subscribe-error", "%s: subscription failed: %v", name, s.err)
